@@ -55,6 +55,16 @@ CLAIMED = {
                 note='The heap is pointer-rich, so operation/target/argument are finite choices enumerated exhaustively; the solver decides index arithmetic and text equality '
                      '(stated in the evidence). Arguments are detached nodes (property scope); failed edits end the history. Attribute-held fragments are outside the claim.',
                 ref='DESIGN.md section 5 C06'),
+    'C07': dict(level='model_checking',
+                text='(i) digestion protocol: streams of 2-4 (thorough 6) sectioning nodes whose level is a z3 integer in [-2, 6] through the real TeX.parse/SectionUtils.digest/'
+                     'paragraphs - every node once, in order, nesting by level entailed on every path; (ii) 9 document skeletons (article/book sectioning incl. starred, paragraphs, '
+                     'nested lists, description, center/quote/flushleft, font commands and declarations incl. a bare declaration running up to a heading, footnote, boxes, tabular, '
+                     'math, verbatim, \\verb), each leaf in turn made of 2 (3) symbolic characters over {letter, \', `, -, \", non-ASCII}: the arguments-before-children walk yields '
+                     'every leaf once in source order, quotes/dashes substituted in text and titles and never in verbatim/math, parent links name the containers, sections contain '
+                     'only paragraphs and strictly deeper units, no paragraph directly in a paragraph.',
+                note='Partial: documents outside the skeleton grammar and longer leaves are outside the claim; the substitution oracle is the ordered replacement table applied per text run. '
+                     'Text is compared with blanks removed.',
+                ref='DESIGN.md section 5 C07'),
     'C08': dict(level='model_checking',
                 text='Bounded exhaustive: roman/Roman numerals for every value in the stated range (one path per numeral, decoded by an independent reader), Alph/alph 1..26, '
                      'arabic for a symbolic range; every acyclic reset graph over <= 3 (thorough 4) counters declared with \\newcounter{x}[y] x all histories of 3 (4) '
